@@ -254,6 +254,9 @@ def run_once(sc, faults):
         finally:
             if cwd is not None:
                 os.chdir(cwd)
+        # the temporary directory's random name must not leak into anything compared or hashed
+        res.stdout = res.stdout.replace(root, '<ROOT>')
+        res.stderr = res.stderr.replace(root, '<ROOT>')
         o.res = res
         o.fs_calls = list(fs.calls)
         o.fs_fired = list(fs.fired)
@@ -445,7 +448,7 @@ def fault_plans(sc, base, cfg):
 ###############################################################################
 
 
-def execute(sc, cfg, stats=None, only_plan=None):
+def execute(sc, cfg, stats=None, only_plan=None, trace=None):
     stats = stats if stats is not None else {}
 
     def count(k, n=1):
@@ -461,6 +464,8 @@ def execute(sc, cfg, stats=None, only_plan=None):
     base = run_once(sc, {'count_events': True})
     count('process_runs')
     count('fault_free_runs')
+    if trace is not None:
+        trace.append(('base', base.res.status, base.res.stdout, len(base.res.stderr), base.fs_calls, base.line_events))
     count('handler_' + handler_of(base))
     count('content_' + sc['content_kind'])
     count('path_' + sc['path_kind'])
@@ -476,6 +481,8 @@ def execute(sc, cfg, stats=None, only_plan=None):
         faults = {k: v for k, v in plan.items() if k != 'label'}
         o = run_once(sc, faults)
         count('process_runs')
+        if trace is not None:
+            trace.append((label, o.res.status, o.res.stdout, len(o.res.stderr), o.fs_fired, o.out_fired, o.err_fired, o.itr_site))
         fired = any_fault_fired(o)
         count('plans')
         if fired:
@@ -504,6 +511,28 @@ def _mkviol(sc, faults, o, v):
                 'interrupt': list(o.itr_site) if o.itr_site else None}}
 
 
+def prep():
+    """Deterministic template state: every run is forked off a process that has done exactly this."""
+    build.parser('property')
+    build.parser('specification')
+    from hpl import cli  # noqa: F401
+
+
+def one_run(seed, cfg):
+    sc = gen_scenario(seed, cfg)
+    stats = {}
+    tr = []
+    vs = execute(sc, cfg, stats, trace=tr)
+    return {'vs': vs, 'stats': stats, 'digest_gen': sc['digest_gen'], 'digest_exec': core.derive(repr(tr)),
+            'key': (sc['mode'], sc['json'], sc['text'], sc['path_kind']),
+            'sample': {'seed': seed, 'argv_shape': ('-p ' if sc['mode'] == 'inline' else '') + ('-o json ' if sc['json'] else '') + ('TEXT' if sc['mode'] == 'inline' else 'PATH(%s)' % sc['path_kind']),
+                       'content_kind': sc['content_kind'], 'text': sc['text'][:300]}}
+
+
+def isolated_execute(sc, cfg, plan):
+    return core.run_isolated(execute, sc, cfg, {}, plan)
+
+
 def worker(job):
     cfg = job['cfg']
     stats = {}
@@ -512,20 +541,20 @@ def worker(job):
     samples = []
     texts = set()
     t0 = time.monotonic()
+    prep()
     for idx in job['indices']:
         if time.monotonic() - t0 > job['wall']:
             stats['runs_skipped_for_time'] = stats.get('runs_skipped_for_time', 0) + 1
             continue
         seed = core.derive(job['master'], PROP, idx)
-        sc = gen_scenario(seed, cfg)
-        vs = execute(sc, cfg, stats)
+        r = core.run_isolated(one_run, seed, cfg)
+        core.merge_counts(stats, r['stats'])
         stats['runs'] = stats.get('runs', 0) + 1
-        texts.add((sc['mode'], sc['json'], sc['text'], sc['path_kind']))
-        digests.append((idx, sc['digest_gen']))
+        texts.add(r['key'])
+        digests.append((idx, r['digest_gen'], r['digest_exec']))
         if len(samples) < 1:
-            samples.append({'run_index': idx, 'seed': seed, 'argv_shape': ('-p ' if sc['mode'] == 'inline' else '') + ('-o json ' if sc['json'] else '') + ('TEXT' if sc['mode'] == 'inline' else 'PATH(%s)' % sc['path_kind']),
-                            'content_kind': sc['content_kind'], 'text': sc['text'][:300]})
-        for v in vs:
+            samples.append(dict(r['sample'], run_index=idx))
+        for v in r['vs']:
             v['run_index'] = idx
             v['seed'] = seed
             found.append(v)
@@ -548,7 +577,8 @@ def make_replay(sc, v):
 
 def replay(doc):
     sc = doc['scenario']
-    vs = execute(sc, TIERS['quick'], {}, only_plan=doc['faults'])
+    prep()
+    vs = isolated_execute(sc, TIERS['quick'], doc['faults'])
     return vs[0] if vs else None
 
 
@@ -564,12 +594,12 @@ def minimise(sc, v):
                 t['fs'] = {k: x for k, x in faults['fs'].items() if k != idx}
                 if not t['fs']:
                     del t['fs']
-                r = execute(sc, TIERS['quick'], {}, only_plan=t)
+                r = isolated_execute(sc, TIERS['quick'], t)
                 if r and r[0]['class'] == cls:
                     faults, best = t, r[0]
         else:
             t = {k: x for k, x in faults.items() if k != key}
-            r = execute(sc, TIERS['quick'], {}, only_plan=t)
+            r = isolated_execute(sc, TIERS['quick'], t)
             if r and r[0]['class'] == cls:
                 faults, best = t, r[0]
     return best
@@ -669,8 +699,8 @@ def main(argv):
         digests.extend(r['digests'])
         distinct += r['distinct']
     if args.digests:
-        for idx, d in sorted(digests):
-            print('DIGEST %d %s' % (idx, d))
+        for idx, d, e in sorted(digests):
+            print('DIGEST %d %s %x' % (idx, d, e))
     harness_errors = []
     cross = real_process_crosscheck()
     for pr in cross:
@@ -685,6 +715,7 @@ def main(argv):
         per_class.setdefault(v['class'], []).append(v)
     for cls, vs in sorted(per_class.items()):
         for v in vs[:limit]:
+            prep()
             sc = gen_scenario(v['seed'], cfg)
             mv = minimise(sc, v) if v['faults'] else v
             key = (mv['class'], sc['text'], json.dumps(mv['faults'], sort_keys=True))
